@@ -2067,6 +2067,16 @@ class TupleParser:
         self.check_node(tup_tree, 'ERROR', ('CODE',), ('DESCRIPTION',),
                         ('INSTANCE',))
 
+        # The callers convert the status code with int()
+        try:
+            int(attrs(tup_tree)['CODE'])
+        except ValueError:
+            raise CIMXMLParseError(
+                _format("Element {0!A} has an invalid (non-numeric) value "
+                        "{1!A} for its 'CODE' attribute",
+                        name(tup_tree), attrs(tup_tree)['CODE']),
+                conn_id=self.conn_id)
+
         # self.list_of_various() has the same effect as self.list_of_same()
         # when used with a single allowed child element, but is a little
         # faster.
